@@ -85,7 +85,7 @@ def main():
         kwargs['force_restart'] = False
     if plan.get('postprocess'):
         kwargs['postprocess_func'] = post_fn
-    study_dir = os.path.join(workdir, 'study')
+    study_dir = os.path.join(workdir, plan.get('dir_name', 'study'))
     if plan.get('dir_state') == 'empty' and attempt == 0:
         os.makedirs(study_dir, exist_ok=True)
     result = {'attempt': attempt}
